@@ -20,6 +20,10 @@ MFI = "pandora/filter/median_for_intervals.py"
 COM = "pandora/common.py"
 
 
+def _ex(t: str) -> ast.AST:
+    return ast.parse(t, mode="eval").body
+
+
 def rule_masked_write(ctx: Ctx, rel: str, cls: str, kernel: str) -> None:
     tree = ctx.tree
     fn = tree.func(rel, f"{cls}.filter_disparity")
@@ -144,6 +148,22 @@ def run(ctx: Ctx) -> None:
     ik = d.all_defs("int_kernel")
     okc = bool(ik) and "windows[(::, ::, offset, offset)]" in canon(ik[0][1])
     ctx.ob("C10.BILATERAL", BIL, ik[0][0] if ik else bk, f"range kernel relative to the window centre: {canon(ik[0][1])[:120] if ik else '?'}", okc, expected="windows - windows[:, :, offset, offset]", detail="the intensity difference must be taken with the centre pixel of each window")
+    # spatial kernel: distances measured from the same centre cell as the range kernel (floor(size / 2))
+    gk = tree.func(BIL, "BilateralFilter.gauss_spatial_kernel")
+    ks = gk.args.args[1].arg
+    gd = Defs(gk)
+    centres = []
+    for n in walk_no_nested(gk):
+        if isinstance(n, ast.BinOp) and isinstance(n.op, ast.Sub):
+            ex = gd.expand(n.right, n, depth=3, stop=(ks,))
+            if any(isinstance(x, ast.Name) and x.id == ks for x in ast.walk(ex)):
+                centres.append((n, ex))
+    if not centres:
+        raise AnalysisError("gauss_spatial_kernel: no `index - centre(kernel_size)` expression found")
+    for n, ex in centres:
+        c = canon(ex)
+        okc2 = c in (canon(_ex(f"{ks} // 2")), canon(_ex(f"int({ks} / 2)")), canon(_ex(f"np.floor({ks} / 2)")), canon(_ex(f"math.floor({ks} / 2)")))
+        ctx.ob("C10.BILATERAL", BIL, n, f"gauss_spatial_kernel: distance measured from `{c}`", okc2, expected=f"{ks} // 2, the centre cell used by the range kernel and by the block loop (offset = int(win_width / 2))", detail="the spatial Gaussian must peak on the filtered pixel: with another centre the spatial and range kernels disagree on which cell is the centre whenever the window width is even (see known finding K1: even widths do occur)")
     pw = d.all_defs("pixel_weights")
     w = d.all_defs("weights")
     okw = bool(pw) and canon(pw[0][1]) in ("np.multiply(windows, weights)", "windows*weights") and bool(w) and canon(w[0][1]) in ("np.multiply(gauss_spatial_kernel, gauss_int_kernel)", "gauss_int_kernel*gauss_spatial_kernel")
@@ -209,6 +229,8 @@ SPEC = PropSpec(
 )
 
 MUTANTS = [
+    {"id": "spatial-kernel-centre-half-size-minus-half", "file": BIL, "old": "            arr[i, j] = np.sqrt(abs(i - kernel_size // 2) ** 2 + abs(j - kernel_size // 2) ** 2)", "new": "            arr[i, j] = np.sqrt(abs(i - (kernel_size - 1) / 2) ** 2 + abs(j - (kernel_size - 1) / 2) ** 2)"},
+    {"id": "eq-spatial-kernel-vectorised-same-centre", "kind": "equiv", "file": BIL, "old": "        arr = np.zeros((kernel_size, kernel_size))\n        for [i, j], val in np.ndenumerate(arr):  # pylint:disable=unused-variable\n            arr[i, j] = np.sqrt(abs(i - kernel_size // 2) ** 2 + abs(j - kernel_size // 2) ** 2)\n", "new": "        center = kernel_size // 2\n        rows, cols = np.indices((kernel_size, kernel_size))\n        arr = np.sqrt((rows - center) ** 2 + (cols - center) ** 2)\n"},
     {"id": "store-unmasked", "file": MED, "old": 'disp["disparity_map"].data[valid] = disp_median[valid]', "new": 'disp["disparity_map"].data[:] = disp_median'},
     {"id": "mask-test-eq0", "file": MED, "old": "cst.PANDORA_MSK_PIXEL_INVALID) != 0)] = np.nan", "new": "cst.PANDORA_MSK_PIXEL_INVALID) == 0)] = np.nan"},
     {"id": "median-writes-mask", "file": MED, "old": '        disp.attrs["filter"] = "median"', "new": '        disp["validity_mask"].data[valid] = 0\n        disp.attrs["filter"] = "median"'},
